@@ -98,6 +98,8 @@ class Clearer:
 
     def atom(self, op, a, b):
         f = sympy.together(self.term(a) - self.term(b))
+        if f.has(sympy.zoo, sympy.nan, sympy.oo, -sympy.oo):
+            raise Unsupported("division by zero in this case")
         n, d = sympy.fraction(f)
         n = sympy.expand(n)
         if d != 1:
